@@ -187,6 +187,12 @@ class ExprMixin:
             if fk is not None:
                 self.oblige(st, "safe", f"notnone:{attr}", obj.term != 0, node, exc="AttributeError")
                 return self.fget(st, obj, attr, fk)
+            if self.reg.lookup_method(cls, attr) is None and self.find_method_def(cls, attr) is None and not attr.startswith("__"):
+                # an attribute the class table does not know (e.g. introduced by a change): an object of unknown
+                # class stored in the heap -- it can be passed on and written through, under the usual frame rules
+                self.note_assumption(f"attribute {cls}.{attr} is not declared in the class table: treated as a reference to an object of unknown class")
+                k = Ref(ObjT("object"), optional=True)
+                return self.fget(st, obj, attr, k)
             return V(FN, FuncRef("bound", obj=obj, name=attr))
         if obj.kind == FN and obj.term.tag == "class":
             return V(FN, FuncRef("classattr", cls=obj.term.cls, name=attr))
